@@ -106,9 +106,11 @@ class Failures(object):
 
     def __init__(self):
         self.groups = {}
+        self.raw_routes = set()
 
     def add(self, case, fails, tag=""):
         for route, kind, msg in fails:
+            self.raw_routes.add(route)
             s = (re.sub(r" \((labelled|definitions?[^)]*|[A-Za-z]+OK)\)$", "", re.sub(r" \[.*\]$", "", route)).strip(), kind)
             g = self.groups.setdefault(s, {"n": 0, "first": None, "msg": None, "all_nopix": True, "tag": tag})
             g["n"] += 1
@@ -345,7 +347,9 @@ def bind_routes(chk, prefix, runs, tag):
         out = child_replay(chk, cases, "%s%d" % (tag, k), "normal", F, light=False)
         account(chk, cases[:out["n"]])
         ncases += out["n"]
-    load_broken = [s for s in F.groups if s[0].startswith("SparseScan(") or s[0].startswith("SparseScan.getframe")]
+    # (getframe on a labelled scan carries the labels: its failures follow from the labelling, not from the load)
+    load_broken = [r for r in F.raw_routes if r.startswith("SparseScan(") or
+                   (r.startswith("SparseScan.getframe") and "(labelled)" not in r)]
     other = {}
     nrep = 0
     for s in sorted(F.groups, key=str):
